@@ -1,10 +1,15 @@
 RAFT = {"dir": "consensus/raft", "pkgname": "raft"}
+PSTORE = {"dir": "pstoremgr", "pkgname": "pstoremgr"}
 
 SPEC = {
     "go": [dict(RAFT, files=["raft/c14_rig_test.go", "raft/c14_raft_test.go", "raft/c14_snap_test.go"], test="TestVerifC14Raft",
-                n_quick=150, n_thorough=3000, shards_quick=4, shards_thorough=12)],
+                n_quick=150, n_thorough=3000, shards_quick=4, shards_thorough=12),
+           dict(PSTORE, files=["pstoremgr/c14_pstore_test.go"], test="TestVerifC14Pstore",
+                n_quick=400, n_thorough=6000, shards_quick=2, shards_thorough=8)],
     "rule": "TODO",
-    "codes": {1: "model_eq_impl (C14)", 10: "backup_rotation step (C14)", 11: "backup_rotation history (C14)"},
+    "codes": {1: "model_eq_impl (C14)", 10: "backup_rotation step (C14)", 11: "backup_rotation history (C14)",
+              12: "peerstore_skips_garbage (C14): LoadPeerstore returned a nil address or the import crashed",
+              13: "peerstore_roundtrip (C14): the saved file does not read back as the same addresses in the same priority order"},
     "tags": {},
     "trusted": [],
     "level_text": "TODO",
